@@ -1407,6 +1407,10 @@ func (c *ChannelStateDB) putChanStatus(channel *OpenChannel,
 func (c *ChannelStateDB) ClearChannelStatus(channel *OpenChannel,
 	status ChannelStatus) error {
 
+	// The closure may be executed more than once by backends that retry
+	// transactions, so the bits to clear must not be overwritten inside
+	// it.
+	var newStatus ChannelStatus
 	if err := kvdb.Update(c.backend, func(tx kvdb.RwTx) error {
 		chanBucket, err := fetchChanBucketRw(
 			tx, channel.IdentityPub, &channel.FundingOutpoint,
@@ -1424,16 +1428,18 @@ func (c *ChannelStateDB) ClearChannelStatus(channel *OpenChannel,
 		}
 
 		// Unset this bit in the bitvector on disk.
-		status = diskChannel.ChannelStatusForStore() & ^status
-		diskChannel.SetChannelStatusForStore(status)
+		newStatus = diskChannel.ChannelStatusForStore() & ^status
+		diskChannel.SetChannelStatusForStore(newStatus)
 
 		return putOpenChannel(chanBucket, diskChannel)
-	}, func() {}); err != nil {
+	}, func() {
+		newStatus = 0
+	}); err != nil {
 		return err
 	}
 
 	// Update the in-memory representation to keep it in sync with the DB.
-	channel.SetChannelStatusForStore(status)
+	channel.SetChannelStatusForStore(newStatus)
 
 	return nil
 }
